@@ -1,4 +1,5 @@
 import PcfgVerif.Properties.EditCore
+import PcfgVerif.Generated.EditFs
 import PcfgVerif.Model.ExpandSpec
 /-!
 # C20 — edit_rules only removes base structures, and only those that fail the filter
@@ -86,5 +87,16 @@ theorem C20_case_expansion_witness :
     productSpec (fun c => if c = 'ß' then ['S', 'S'] else [c.toUpper])
       [("A2", [[['a', 'ß']]]), ("C2", [[['L', 'U']]])] [] [("A2", 0), ("C2", 0)] = [['a', 'S', 'S']] := by
   decide
+
+
+/-- **only `Grammar/grammar.txt` is ever written** (re-proved against the current source of `edit_rules.py` on every run): the
+calls that can change the file system are one `shutil.copytree` (the `--copy` duplicate) and one write-open whose file name is
+`os.path.join(…, 'Grammar', 'grammar.txt')`; with `--copy` the ruleset being edited is re-bound to the copy before that name is
+computed, so the source ruleset is never opened for writing -/
+theorem C20_only_grammar_written :
+    (Generated.EditFs.writes.all fun w =>
+      w == ("shutil.copytree", "") || w == ("open-write", "Grammar/grammar.txt")) = true ∧
+    (Generated.EditFs.writes.filter fun w => w.1 == "open-write").length = 1 ∧
+    Generated.EditFs.retargetsToCopy = true := by decide
 
 end Pcfg.C20
